@@ -58,6 +58,9 @@ structure R where
   joined : Bool := false
   wakes : Nat := 0
   pops : Nat := 0
+  swcExpect : List (String × String × Int) := []   -- per caller thread: branch record (su/sd, value) the model predicted at `sr`
+  peekRecheck : Bool := false          -- set by `replay` for an `aw` record: the worker's next record is a re-read (ip/ik)
+  killFirst : List (Nat × Int) := []   -- workers that re-read workerKill BEFORE the queue size (one L section: order free)
   fifoQ : Bool := true                 -- DefaultTaskQueue: Pop returns the oldest task (checked); engine.TaskQueue: any
   earlyBc : Nat := 0                   -- unlocked broadcasts already performed whose record is still to come
 
@@ -121,6 +124,12 @@ def stepRec (c : Rec) (r0 : R) : M R := do
   let r ← match wi with
     | some i => if pcOf r0 i == .drained && c.code != "dr" && c.code != "em" then ev (.drainExit i) r0 else pure r0
     | none => pure r0
+  -- a SetWorkerCount whose deciding section the model predicted must show its branch record next
+  match r.swcExpect.find? (·.1 == c.thread) with
+  | some (_, cd, v) =>
+    expect (c.code == "su" || c.code == "sd")
+      s!"SetWorkerCount: the model decides {cd} {v} in this critical section, the code recorded nothing"
+  | none => pure ()
   match wi with
   | some i =>
     -- `st`/`hd` of a fresh worker may be recorded before the `su` of the SetWorkerCount creating it
@@ -168,16 +177,25 @@ def stepRec (c : Rec) (r0 : R) : M R := do
     | "ip" =>
       let p ← argNat c.args 0
       expect (p == (r.s.queue.length : Int)) s!"ip: pending observed {p}, model {r.s.queue.length}"
-      ev (.readQ i) r
+      let r ← ev (.readQ i) r
+      match r.killFirst.lookup i with
+      | some k =>
+        -- workerKill was re-read first (same L section; the two reads commute unless workerKill changed in between)
+        expect (k == r.s.kill) s!"ip: workerKill changed between the two re-reads ({k} then {r.s.kill}): their order matters in this run"
+        let r ← ev (.readKill i) r
+        pure { r with killFirst := r.killFirst.filter (·.1 != i) }
+      | none => pure r
     | "ik" =>
       let k ← argNat c.args 0
       expect (k == r.s.kill) s!"ik: workerKill observed {k}, model {r.s.kill}"
-      ev (.readKill i) r
+      if pcOf r i == .hasL then pure { r with killFirst := (i, k) :: r.killFirst.filter (·.1 != i) }
+      else ev (.readKill i) r
     | "bw" => expect (pcOf r i == .willWait) "bw: model does not wait here"; pure { r with lazy := some i }
     | "aw" =>
       let r ← flush r
       expect (pcOf r i == .woken) "aw: worker returned from Wait but nothing woke it in the model"
-      let r ← ev (.wRelock i) r
+      -- return from idleTask.Run, or (wait-loop idiom) re-check the predicate under L
+      let r ← if r.peekRecheck then ev (.wRecheck i) r else ev (.wRelock i) r
       pure { r with wakes := r.wakes + 1 }
     | "rt" => expect (pcOf r i == .unlocking) "rt: model is not at the end of idleTask.Run"; pure { r with lazy := some i }
     | "iu" => do let r ← flushOwn r i; ev (.unregIdle i) r
@@ -200,27 +218,28 @@ def stepRec (c : Rec) (r0 : R) : M R := do
       let k ← argNat c.args 1
       -- repaired SetWorkerCount: len(workerMap) - workerExiting, read in the deciding critical section
       expect (w == (r.s.live : Int)) s!"sr: workers not told to exit observed {w}, model {r.s.live} (len(workerMap) = {r.s.workerCount})"
-      -- the deciding critical section: this call's count is the target from now on
+      -- the deciding critical section: the MODEL decides here (swcSet) and predicts which branch record
+      -- must follow; this call's count is the target from now on
       let k := if k < 0 then 0 else k
-      pure { r with swcRead := setAssoc r.swcRead c.thread (w, k), lastSet := some k, joined := false }
-    | "su" =>
+      let live := r.s.live
+      let kill := r.s.kill
+      let r ← ev (.swcSet k.toNat) r
+      let exp : Option (String × Int) :=
+        if (live : Int) < k then some ("su", k)
+        else if (live : Int) > k then some ("sd", (live : Int) - k)
+        else if kill > 0 then some ("su", (live : Int))
+        else none
+      let pend := r.swcExpect.filter (·.1 != c.thread)
+      pure { r with swcRead := setAssoc r.swcRead c.thread (w, k), lastSet := some k, joined := false,
+                    swcExpect := match exp with | some (cd, v) => (c.thread, cd, v) :: pend | none => pend }
+    | "su" | "sd" =>
       let n ← argNat c.args 0
-      match r.swcRead.lookup c.thread with
-      | some (_, cnt) =>
-        expect ((r.s.live : Int) ≤ cnt) s!"su: the model shrinks here (live {r.s.live} > count {cnt})"
-        let r ← ev (.swcSet cnt.toNat) r
-        expect (n == (r.s.live : Int)) s!"su: workers after the resize observed {n}, model {r.s.live}"
-        pure r
-      | none => throw "su without sr"
-    | "sd" =>
-      let k ← argNat c.args 0
-      match r.swcRead.lookup c.thread with
-      | some (_, cnt) =>
-        expect ((r.s.live : Int) > cnt) s!"sd: the model does not shrink here (live {r.s.live} ≤ count {cnt})"
-        let r ← ev (.swcSet cnt.toNat) r
-        expect (k == r.s.kill) s!"sd: workerKill observed {k}, model {r.s.kill}"
-        pure r
-      | none => throw "sd without sr"
+      match r.swcExpect.find? (·.1 == c.thread) with
+      | some (_, cd, v) =>
+        expect (cd == c.code) s!"{c.code}: the model takes the other branch of SetWorkerCount here ({cd} {v})"
+        expect (v == n) s!"{c.code}: observed {n}, the model decides {v}"
+        pure { r with swcExpect := r.swcExpect.filter (·.1 != c.thread) }
+      | none => throw s!"{c.code}: the model changes nothing in this SetWorkerCount (requested count there, no kill request pending)"
     | "sb" => do
       let r ← flush r
       let r ← ev .swcLock r
@@ -292,7 +311,12 @@ def signalAlts (r : R) : M (List (Unit → M R)) := do
 
 def replay : List Rec → Nat → R → M R
   | [], _, r => flush r
-  | c :: rest, k, r =>
+  | c :: rest, k, r0 =>
+    let r : R := if c.code == "aw" then
+        { r0 with peekRecheck := match rest.find? (·.thread == c.thread) with
+                                 | some d => d.code == "ip" || d.code == "ik"
+                                 | none => false }
+      else r0
     let wrap (e : M R) : M R :=
       tryCatch e fun m => throw (if m.startsWith "@" then m else s!"@{k} {c.thread}.{c.code}: {m}")
     if c.code == "as" then
